@@ -375,6 +375,11 @@ func (e *Exec) stepBulk(op *Op, mc *model.Coll) {
 	}
 	feats := e.queryFeatures(q)
 	props := idxProps([]string{"C03", "C01"}, feats)
+	for k := range op.Upd {
+		if k == "_id" || strings.HasPrefix(k, "_id.") {
+			props = append(props, "C12") // an update aimed at _id: whatever goes wrong also concerns key/_id agreement
+		}
+	}
 	matching := mc.Matching(q.Crit)
 	sortOpts := q.EffSort()
 	skip, limit := q.EffSkip(), q.EffLimit()
@@ -1363,7 +1368,7 @@ func (e *Exec) Audit() {
 					return
 				}
 				if err != nil {
-					e.fail([]string{"C06", "C14", "C02"}, "C06/index-scan-error", fmt.Sprintf("audit: index scan of %q.%q failed: %v", name, f, err), map[string]string{"dir": fmt.Sprint(dir)})
+					e.fail([]string{"C06", "C14", "C02", "C01"}, "C06/index-scan-error", fmt.Sprintf("audit: index scan of %q.%q failed: %v", name, f, err), map[string]string{"dir": fmt.Sprint(dir)})
 					return
 				}
 				if e.Ctl.GetsUnderCursor > 0 {
@@ -1385,7 +1390,8 @@ func (e *Exec) Audit() {
 					bad = fmt.Sprintf("%d ids, collection has %d", len(res), len(mc.Docs))
 				}
 				if bad != "" {
-					e.fail([]string{"C06", "C14", "C02"}, "C06/index-scan", fmt.Sprintf("audit: enumerating %q through its index on %q (dir %d): %s", name, f, dir, bad), map[string]string{"dir": fmt.Sprint(dir)})
+					// this is FindAll(all documents, sorted by f) returning something else than the collection
+					e.fail([]string{"C06", "C14", "C02", "C01"}, "C06/index-scan", fmt.Sprintf("audit: enumerating %q through its index on %q (FindAll sorted by it, dir %d): %s", name, f, dir, bad), map[string]string{"dir": fmt.Sprint(dir)})
 					return
 				}
 			}
